@@ -10,6 +10,7 @@ CONSTANTS
   Plans = {"whole", "hdr"}
   Frames <- FramesTiny
   MaxFrames = 3
+  Spellings <- SpellCanon
   Pres = {"none"}
   PushPays <- PushNone
 SPECIFICATION MCSpec
